@@ -21,15 +21,16 @@ import (
 // vFaultReader delivers data in chunks and starts failing at byte offset FailAt
 // (FailAt > len(data): healthy, ends with io.EOF).
 type vFaultReader struct {
-	data     []byte
-	pos      int
-	failAt   int
-	err      error
-	chunks   []int // cyclic chunk sizes
-	ci       int
-	withLast bool // return the error together with the last chunk
-	once     bool // the read at failAt fails exactly once, later reads continue with the remaining data
-	failed   bool
+	data        []byte
+	pos         int
+	failAt      int
+	err         error
+	chunks      []int // cyclic chunk sizes
+	ci          int
+	withLast    bool // return the error together with the last chunk
+	once        bool // the read at failAt fails exactly once, later reads continue with the remaining data
+	failed      bool
+	eofWithLast bool // a healthy reader that reports io.EOF together with its last bytes (io.Reader allows both ways)
 }
 
 func (r *vFaultReader) Read(p []byte) (int, error) {
@@ -87,6 +88,9 @@ func (r *vFaultReader) Read(p []byte) (int, error) {
 	if r.withLast && r.pos == limit && r.failAt <= len(r.data) {
 		return n, r.err
 	}
+	if r.eofWithLast && r.pos == len(r.data) && r.failAt > len(r.data) {
+		return n, io.EOF
+	}
 	return n, nil
 }
 
@@ -139,6 +143,13 @@ func checkC10Parser(c c10ParserCase, ctx *vCtx) *vFailure {
 	got, errs, ret := vParseAllReader(hr)
 	ctx.Run(1)
 	if f := vCompareParsed(want, got, errs, ret, "healthy reader with the same chunking"); f != nil {
+		return f
+	}
+	// the same, with io.EOF delivered together with the last bytes
+	hr2 := &vFaultReader{data: text, failAt: len(text) + 1, chunks: c.Chunks, eofWithLast: true}
+	got, errs, ret = vParseAllReader(hr2)
+	ctx.Run(1)
+	if f := vCompareParsed(want, got, errs, ret, "healthy reader that returns io.EOF together with its last bytes"); f != nil {
 		return f
 	}
 	return nil
